@@ -29,5 +29,10 @@ size_t strlcpy(char *dst, const char *src, size_t size) {
 
 	*dst = '\0';
 
+	/* the result is the length of src, not of the (possibly truncated) copy */
+	while (*s != '\0') {
+		++s;
+	}
+
 	return s - src;
 }
